@@ -5,7 +5,7 @@ import PyTough.Proofs.GeoFileSections
 namespace Proofs.GeoFile
 open Py Model Model.GeoFile Proofs
 
-def wellNameItem (name : Str) : Item := (fS 5, .str name, name, .str name)
+def wellNameItem (name : Str) : Item := (fS 5, .str name, rjust name 5, .str (rjust name 5))
 
 def wellItems (s : Rat) (name : Str) (p : Flt × Flt × Flt) : List Item :=
   [wellNameItem name, coordItem 1 s p.1, coordItem 1 s p.2.1, coordItem 1 s p.2.2]
@@ -18,12 +18,38 @@ structure PosOK (s : Rat) (p : Flt × Flt × Flt) : Prop where
   z : fitsC 1 s p.2.2 = true
 
 structure WellNameOK (name : Str) : Prop where
-  len : name.length = 5
+  len : name.length ≤ 5
   nonl : '\n' ∉ name
+
+theorem rjust_no_newline {n : Str} {w : Nat} (h : '\n' ∉ n) : '\n' ∉ rjust n w := by
+  unfold rjust
+  simp only [List.mem_append, not_or]
+  exact ⟨fun hc => by have := mem_replicate_blank hc; revert this; decide, h⟩
+
+theorem rjust_length {n : Str} {w : Nat} (h : n.length ≤ w) : (rjust n w).length = w := by
+  unfold rjust; simp; omega
+
+/-- a well name of at most five characters in its `5s` field: written right-justified, read back so -/
+theorem wellNameItem_ok {name : Str} (hn : WellNameOK name) :
+    FieldRT (wellNameItem name).1 (wellNameItem name).2.1 (wellNameItem name).2.2.1 (wellNameItem name).2.2.2 := by
+  show FieldRT (fS 5) (.str name) (rjust name 5) (.str (rjust name 5))
+  have hf : fmtVal (fS 5) (.str name) = .ok (rjust name 5) := by
+    rw [fmtVal_s_str (f := fS 5) rfl]
+    rfl
+  have hl : (rjust name 5).length = 5 := rjust_length hn.len
+  have hnl := rjust_no_newline (w := 5) hn.nonl
+  refine ⟨writeField_of_fits (by simp) (by simp [fS]) hf (by rw [hl]; exact Nat.le_refl _), hl, ?_, hnl⟩
+  intro rf
+  rw [show (fS 5).typ = 's' from rfl, read_name]
+  congr 2
+  apply rstripNewline_of_last
+  intro c hc e
+  subst e
+  exact hnl (List.mem_of_getLast? hc)
 
 theorem wellItems_ok {s : Rat} {name : Str} {p : Flt × Flt × Flt} (hn : WellNameOK name) (hp : PosOK s p) :
     ItemsOK (wellItems s name p) :=
-  itemsOK_cons (fieldRT_s 5 name hn.len hn.nonl)
+  itemsOK_cons (wellNameItem_ok hn)
     (itemsOK_cons (coordItem_ok hp.x) (itemsOK_cons (coordItem_ok hp.y) (itemsOK_cons (coordItem_ok hp.z) itemsOK_nil)))
 
 theorem wellLine_eq {s : Rat} {name : Str} {p : Flt × Flt × Flt} (hn : WellNameOK name) (hp : PosOK s p) :
@@ -33,7 +59,7 @@ theorem wellLine_eq {s : Rat} {name : Str} {p : Flt × Flt × Flt} (hn : WellNam
 theorem wellStep_line {s : Rat} {name : Str} {p : Flt × Flt × Flt} (hn : WellNameOK name) (hp : PosOK s p)
     (g : Geo) (tail : Str) :
     wellStep SP s g (recText (wellItems s name p) ++ tail)
-      = .ok { g with wells := addWellPos g.wells name (canonPos s p) } := by
+      = .ok { g with wells := addWellPos g.wells (rjust name 5) (canonPos s p) } := by
   unfold wellStep
   have hpi := parse_items .default (wellItems s name p) (wellItems_ok hn hp) tail
   have : SP.well = (wellItems s name p).map (·.1) := rfl
@@ -58,7 +84,7 @@ theorem nonblank_wellItems (s : Rat) (name : Str) (p : Flt × Flt × Flt) :
 
 /-! ### folding the track points into wells -/
 
-def addPos (s : Rat) (ws : List GWell) (np : Str × (Flt × Flt × Flt)) : List GWell := addWellPos ws np.1 (canonPos s np.2)
+def addPos (s : Rat) (ws : List GWell) (np : Str × (Flt × Flt × Flt)) : List GWell := addWellPos ws (rjust np.1 5) (canonPos s np.2)
 
 def wellPairs (ws : List GWell) : List (Str × (Flt × Flt × Flt)) := ws.flatMap fun w => w.pos.map fun p => (w.name, p)
 
@@ -86,10 +112,10 @@ theorem addWellPos_last {ws : List GWell} {name : Str} (h : name ∉ ws.map (·.
     rw [List.map_congr_left this, List.map_id]
   · simp
 
-theorem fold_track (s : Rat) {ws : List GWell} {name : Str} (h : name ∉ ws.map (·.name)) :
+theorem fold_track (s : Rat) {ws : List GWell} {name : Str} (h : rjust name 5 ∉ ws.map (·.name)) :
     ∀ (ps : List (Flt × Flt × Flt)) (acc : List (Flt × Flt × Flt)),
-    (ps.map fun p => (name, p)).foldl (addPos s) (ws ++ [{ name := name, pos := acc }])
-      = ws ++ [{ name := name, pos := acc ++ ps.map (canonPos s) }] := by
+    (ps.map fun p => (name, p)).foldl (addPos s) (ws ++ [{ name := rjust name 5, pos := acc }])
+      = ws ++ [{ name := rjust name 5, pos := acc ++ ps.map (canonPos s) }] := by
   intro ps
   induction ps with
   | nil => intro acc; simp
@@ -102,14 +128,14 @@ theorem fold_track (s : Rat) {ws : List GWell} {name : Str} (h : name ∉ ws.map
     simp
 
 theorem fold_wells (s : Rat) : ∀ (ws : List GWell) (ws0 : List GWell),
-    (ws0.map (·.name) ++ ws.map (·.name)).Nodup → (∀ w ∈ ws, w.pos ≠ []) →
+    (ws0.map (·.name) ++ ws.map (fun w => rjust w.name 5)).Nodup → (∀ w ∈ ws, w.pos ≠ []) →
     (wellPairs ws).foldl (addPos s) ws0 = ws0 ++ ws.map (canonWell s) := by
   intro ws
   induction ws with
   | nil => intro ws0 _ _; simp [wellPairs]
   | cons w r ih =>
     intro ws0 hd hne
-    have hw : w.name ∉ ws0.map (·.name) := by
+    have hw : rjust w.name 5 ∉ ws0.map (·.name) := by
       intro hc
       rw [List.nodup_append] at hd
       exact hd.2.2 _ hc _ (by simp) rfl
@@ -120,10 +146,10 @@ theorem fold_wells (s : Rat) : ∀ (ws : List GWell) (ws0 : List GWell),
       have e1 : wellPairs (w :: r) = (w.name, p0) :: (ps.map fun p => (w.name, p)) ++ wellPairs r := by
         simp [wellPairs, hp]
       rw [e1, List.cons_append, List.foldl_cons, List.foldl_append]
-      have e2 : addPos s ws0 (w.name, p0) = ws0 ++ [{ name := w.name, pos := [canonPos s p0] }] :=
+      have e2 : addPos s ws0 (w.name, p0) = ws0 ++ [{ name := rjust w.name 5, pos := [canonPos s p0] }] :=
         addWellPos_new hw _
       rw [e2, fold_track s hw ps [canonPos s p0]]
-      have e3 : ({ name := w.name, pos := [canonPos s p0] ++ ps.map (canonPos s) } : GWell) = canonWell s w := by
+      have e3 : ({ name := rjust w.name 5, pos := [canonPos s p0] ++ ps.map (canonPos s) } : GWell) = canonWell s w := by
         unfold canonWell canonPos
         rw [hp]; rfl
       rw [e3, ih (ws0 ++ [canonWell s w])]
@@ -132,7 +158,7 @@ theorem fold_wells (s : Rat) : ∀ (ws : List GWell) (ws0 : List GWell),
       · intro x hx; exact hne x (List.mem_cons_of_mem _ hx)
 
 theorem foldl_wells_geo (s : Rat) (pairs : List (Str × (Flt × Flt × Flt))) (g : Geo) :
-    pairs.foldl (fun g np => { g with wells := addWellPos g.wells np.1 (canonPos s np.2) }) g
+    pairs.foldl (fun g np => { g with wells := addWellPos g.wells (rjust np.1 5) (canonPos s np.2) }) g
       = { g with wells := pairs.foldl (addPos s) g.wells } := by
   induction pairs generalizing g with
   | nil => rfl
@@ -154,12 +180,12 @@ theorem mem_wellPairs {ws : List GWell} {np : Str × (Flt × Flt × Flt)} (h : n
   exact ⟨w, hw, rfl, hp⟩
 
 theorem readSection_wells {g : Geo} {L LL : Nat} {s : Rat} (env : Env g L LL s) (ws : List GWell)
-    (hok : ∀ w ∈ ws, WellOK s w) (hd : (g.wells.map (·.name) ++ ws.map (·.name)).Nodup) (tail : List Str) :
+    (hok : ∀ w ∈ ws, WellOK s w) (hd : (g.wells.map (·.name) ++ ws.map (fun w => rjust w.name 5)).Nodup) (tail : List Str) :
     readSection SP .wells g (wellTextLines s ws ++ ['\n'] :: tail)
       = .ok ({ g with wells := g.wells ++ ws.map (canonWell s) }, tail) := by
   unfold readSection
   simp only [env.cl, env.ll, env.sc, bind, Except.bind]
-  have := simpleSection (wellStep SP s) (fun g np => { g with wells := addWellPos g.wells np.1 (canonPos s np.2) })
+  have := simpleSection (wellStep SP s) (fun g np => { g with wells := addWellPos g.wells (rjust np.1 5) (canonPos s np.2) })
     (fun np => recText (wellItems s np.1 np.2)) (wellPairs ws) g tail (by
       intro pre a post e
       obtain ⟨w, hw, hn, hp⟩ := mem_wellPairs (np := a) (by rw [e]; simp)
